@@ -4,7 +4,7 @@
 # the change, the demonstration fails with it and passes without it.  Writes
 # /verif/seeded/<id>/{patch.diff,demo.cpp,demo_build.sh,notes.md,confirm.log} and removes the worktree.
 id=$1
-wt=/tmp/wt-$id
+wt=/tmp/wt-${2:-$id}
 sd=/tmp/seeded-$id
 out=/verif/seeded/$id
 mkdir -p $out
@@ -25,6 +25,6 @@ echo "--- demo WITHOUT change" >> $log
 tail -3 /tmp/demo-$id-without.out >> $log
 cp $sd/patch.diff $sd/demo.cpp $sd/demo_build.sh $sd/notes.md $out/ 2>/dev/null
 cd /
-git -C /repo worktree remove --force $wt
+[ -n "$3" ] || git -C /repo worktree remove --force $wt
 rm -rf $sd /tmp/demo-$id-*.out
 echo "confirmed $id" >> $log
